@@ -65,6 +65,14 @@ pub use uuid::Uuid;
 
 pub open spec fn nil_id() -> Uuid { Uuid { v: 0 } }
 
+/// A2: Uuid's derived Hash/Eq obey the key model of the std hash collections
+#[verifier::external_body]
+pub proof fn axiom_uuid_key_model()
+    ensures
+        vstd::std_specs::hash::obeys_key_model::<Uuid>(),
+        vstd::std_specs::hash::obeys_key_model::<(Uuid, Uuid)>(),
+{}
+
 // ---------------------------------------------------------------- chrono (A10)
 pub mod chrono {
     use vstd::prelude::*;
